@@ -2741,7 +2741,8 @@ class HasTraits(CHasTraits, metaclass=MetaHasTraits):
         callback = lambda ref: _sync_trait_listener_deleted(ref, info)
         value = (weakref.ref(object, callback), alias)
 
-        if key not in dic:
+        added = key not in dic
+        if added:
             # Copy the current value first: if the other object rejects it,
             # the exception propagates and nothing has been registered.
             try:
@@ -2763,7 +2764,13 @@ class HasTraits(CHasTraits, metaclass=MetaHasTraits):
             dic[key] = value
 
         if mutual:
-            object.sync_trait(alias, self, trait_name, False)
+            try:
+                object.sync_trait(alias, self, trait_name, False)
+            except BaseException:
+                # The reverse half was refused: take the forward half back.
+                if added:
+                    self.sync_trait(trait_name, object, alias, False, True)
+                raise
 
     def _get_sync_trait_info(self):
         info = getattr(self, "__sync_trait__", None)
